@@ -83,8 +83,8 @@ type fiExec struct {
 	useSeen  map[ssa.Instruction]bool
 	checkUse bool
 	walkAll  bool // do not cut paths that cannot store (needed to see every use)
-	limit  int
-	over   bool
+	limit    int
+	over     bool
 }
 
 type fiSym struct{ name string }
